@@ -100,6 +100,7 @@ def rules(fx, rep):
     # skeleton of the group operations they are built from (shared with C01)
     from props import c01
     c01.rule_projective_ops(fx, rep)
+    c01.rule_general_formulas(fx, rep)
 
 
 def main(tier, t0):
